@@ -68,6 +68,56 @@ def catalogue():
     return C
 
 
+def enc_ws(code, tok=b'', opts=(), pl=b''):
+    # RFC 8323 section 8.2: as over TCP but with the Len nibble 0 - the frame delimits the message
+    t = enc_tcp(code, tok, opts, pl)
+    ln = t[0] >> 4
+    skip = 1 + (0 if ln < 13 else 1 if ln == 13 else 2 if ln == 14 else 4)
+    return bytes([t[0] & 15]) + t[skip:]
+
+
+HTTP_UPGRADE = (b'GET /.well-known/coap HTTP/1.1\r\nHost: 127.0.0.1\r\nUpgrade: websocket\r\nConnection: Upgrade\r\n'
+                b'Sec-WebSocket-Key: dGhlIHNhbXBsZSBub25jZQ==\r\nSec-WebSocket-Protocol: coap\r\nSec-WebSocket-Version: 13\r\n\r\n')
+
+
+def ws_frame(payload, rnd, opcode=2, masked=True, key=None):
+    key = key if key is not None else bytes(rnd.randrange(256) for _ in range(4))
+    n = len(payload)
+    b1 = 0x80 if masked else 0
+    if n < 126:
+        hdr = bytes([0x80 | opcode, b1 | n])
+    elif n < 65536:
+        hdr = bytes([0x80 | opcode, b1 | 126, n >> 8, n & 255])
+    else:
+        hdr = bytes([0x80 | opcode, b1 | 127]) + n.to_bytes(8, 'big')
+    if not masked:
+        return hdr + payload
+    return hdr + key + bytes(b ^ key[i % 4] for i, b in enumerate(payload))
+
+
+def ws_catalogue():
+    W = {}
+    W['csm'] = enc_ws(0xe1, b'', [(2, b'\x04\x80')])
+    W['get0'] = enc_ws(1, b'', [(11, b'a')])
+    W['get8'] = enc_ws(1, b'\x01\x02\x03\x04\x05\x06\x07\x08', [(11, b'ab'), (15, b'q=1')])
+    W['put'] = enc_ws(3, b'\x09', [(11, b'a')], b'0123456789')
+    W['put120'] = enc_ws(3, b'\x0a', [(11, b'a')], bytes(range(120)))              # 125 / 126 / 127 byte frames: the 7-bit / 16-bit length switch
+    W['put121'] = enc_ws(3, b'\x0b', [(11, b'a')], bytes(range(121)))
+    W['put122'] = enc_ws(3, b'\x0c', [(11, b'a')], bytes(range(122)))
+    W['put1400'] = enc_ws(3, b'\x0d', [(11, b'a')], bytes(i & 255 for i in range(1400)))
+    W['tok13'] = enc_ws(1, bytes(range(13)), [(11, b'a')])
+    W['ping'] = enc_ws(0xe2, b'\x77')
+    W['ping0'] = enc_ws(0xe2)                                                        # two bytes
+    W['pong'] = enc_ws(0xe3, b'\x55')
+    W['empty'] = enc_ws(0)
+    W['resp'] = enc_ws(0x45, b'\x01', [], b'zz')
+    W['badopt'] = bytes([0x01, 1, 0x31, 0xb1, ord('a'), 0xf0])
+    W['marker'] = bytes([0x01, 1, 0x33, 0xb1, ord('a'), 0xff])
+    W['release'] = enc_ws(0xe4)
+    W['abort_diag'] = enc_ws(0xe5, b'\x21', [(2, b'\x00\x02')], b'bye')
+    return W
+
+
 def cuts_to_chunks(total, cuts):
     prev, out = 0, []
     for c in cuts:
@@ -81,9 +131,9 @@ def gen(tier, rnd):
     C = catalogue()
     cid = [0]
 
-    def case(stream_lines, chunks, mx=0, edge=0):
+    def case(stream_lines, chunks, mx=0, edge=0, ws=0, http=0):
         cid[0] += 1
-        cases.append((cid[0], ['X id=%d max=%d edge=%d' % (cid[0], mx, edge)] + stream_lines + ['C ' + ' '.join(str(c) for c in chunks), 'E']))
+        cases.append((cid[0], ['X id=%d max=%d edge=%d ws=%d http=%d' % (cid[0], mx, edge, ws, http)] + stream_lines + ['C ' + ' '.join(str(c) for c in chunks), 'E']))
 
     def lit(parts):
         return ['S ' + b''.join(parts).hex()]
@@ -145,6 +195,37 @@ def gen(tier, rnd):
     sl = ['K 9 1200', 'S ' + (CSM + enc_tcp(3, b'\x05', body=b'\xb1a\xff' + b'\x00' * 1200)[:-1200]).hex(), 'P 9 1200', 'S ' + C['get0'].hex()]
     case(sl, [], 1500)
     case(sl, [3, 700, 1, 1], 1500)
+    # ---- WebSocket: the upgrade request, then one masked binary frame per message (readiness level-triggered: the reader takes one frame per wake-up) ----
+    W = ws_catalogue()
+    H = len(HTTP_UPGRADE)
+    wsmall = [['get0'], ['get8', 'ping'], ['put', 'get0'], ['put120', 'put121', 'put122', 'get0'], ['tok13', 'ping0', 'get0'], ['empty', 'resp', 'pong', 'get8'],
+              ['badopt', 'get0'], ['marker', 'get8'], ['get0', 'release', 'get8'], ['ping', 'abort_diag', 'get0'], ['put1400', 'get0'], ['get0', 'get0', 'get0', 'get8', 'ping', 'put']]
+    for names_ in wsmall:
+        frames = [ws_frame(W['csm'], rnd)] + [ws_frame(W[n_], rnd) for n_ in names_]
+        body = b''.join(frames)
+        sl = lit([HTTP_UPGRADE, body])
+        n = H + len(body)
+        case(sl, [], ws=1, http=H)
+        case(sl, [H], ws=1, http=H)
+        case(sl, [1] * min(n, 600), ws=1, http=H)                        # one byte per read through the handshake and the first frames
+        case(sl, [H] + [1] * (n - H), ws=1, http=H)
+        case(sl, [H, 2, 4], ws=1, http=H)                                # frame header cut after the first two bytes and after the key
+        cutset = list(range(H + 1, n))
+        for c1 in (cutset if (tier == 'thorough' or len(cutset) <= 80) else rnd.sample(cutset, 80)):
+            case(sl, cuts_to_chunks(n, [H, c1]), ws=1, http=H)
+        for _ in range(40 if tier == 'quick' else 400):
+            cs = sorted(rnd.sample(range(1, n), rnd.randint(2, 6)))
+            case(sl, cuts_to_chunks(n, cs), ws=1, http=H)
+    # frames a CoAP endpoint does not take: unmasked, text, ping, close, continuation; a frame longer than the buffer
+    odd = [ws_frame(W['get0'], rnd, masked=False), ws_frame(W['get0'], rnd, opcode=1), ws_frame(b'', rnd, opcode=9), ws_frame(b'\x03\xe8', rnd, opcode=8),
+           ws_frame(W['get0'], rnd, opcode=0), ws_frame(bytes(1500), rnd), bytes([0x82, 0xff, 0, 0, 0, 1, 0, 0, 0, 0, 1, 2, 3, 4])]
+    for o in odd:
+        body = ws_frame(W['csm'], rnd) + ws_frame(W['get8'], rnd) + o + ws_frame(W['get0'], rnd)
+        sl = lit([HTTP_UPGRADE, body])
+        n = H + len(body)
+        case(sl, [H], ws=1, http=H)
+        case(sl, [H] + [1] * 40, ws=1, http=H)
+        case(sl, [H, 3, 9, 1], ws=1, http=H)
     # random streams and random cuts
     names = [k for k in C if k not in ('release', 'abort', 'release_holdoff', 'abort_diag')]
     for _ in range(600 if tier == 'quick' else 30000):
